@@ -11,4 +11,4 @@ open GlueVerif.C03
 #print axioms selection_via_links
 #print axioms manager_no_dangling
 #print axioms removal_forgets
-#print axioms list_op_raising_midway_witness
+#print axioms list_op_raising_midway_synced
